@@ -254,12 +254,11 @@ Section SinkCommands.
     set (wl := new_writer (with_sink w (Some k))) in *. set (wu := new_writer (with_sink w None)) in *.
     rewrite !open_file_with_sink.
     destruct (open_file w (op_log op)) as [olog|]; [|apply finish_sim; exact H0].
-    destruct olog as [|data f|]; [apply finish_sim; exact H0| |];
-      (destruct (parse_opened NM _ _ (0, None, zero_time)) as [[[count_log first] last] e1];
-       destruct e1 as [e|]; [apply finish_sim; exact H0|];
-       match goal with
-       | |- sink_cases k (match ?C with inl _ => _ | inr _ => _ end) _ => destruct C as [e|count_db]
-       end; [apply finish_sim; exact H0|apply stats_tail_cases; exact H0]).
+    destruct (parse_opened NM _ _ (0, None, zero_time)) as [[[count_log first] last] e1].
+    destruct e1 as [e|]; [apply finish_sim; exact H0|].
+    match goal with
+    | |- sink_cases k (match ?C with inl _ => _ | inr _ => _ end) _ => destruct C as [e|count_db]
+    end; [apply finish_sim; exact H0|apply stats_tail_cases; exact H0].
   Qed.
 
   (** ** the program *)
